@@ -2,6 +2,7 @@ package attachment
 
 import (
 	"fmt"
+	"path/filepath"
 	"github.com/cuteLittleDevil/go-jt808/protocol/model"
 	"os"
 	"strings"
@@ -80,7 +81,13 @@ func (f *fileEvent) OnEvent(progress *PackageProgress) {
 			len(progress.Record), progress.ExtensionFields.ActiveSafetyType.String())
 		_ = os.MkdirAll(phone, os.ModePerm)
 		for name, pack := range progress.Record {
-			savePath := fmt.Sprintf("./%s/%s", phone, name)
+			// 文件名是终端上报的 只取最后一级的名称 防止 ../ 或者绝对路径写到手机号目录外面
+			base := filepath.Base(filepath.Clean("/" + name))
+			if base == "/" || base == "." {
+				str += fmt.Sprintf("文件名[%s]不合法 不保存\n", name)
+				continue
+			}
+			savePath := fmt.Sprintf("./%s/%s", phone, base)
 			err := os.WriteFile(savePath, pack.StreamBody, os.ModePerm)
 			str += fmt.Sprintf("保存文件[%s] 文件大小[%d byte] 保存情况[%v]\n",
 				savePath, len(pack.StreamBody), err)
